@@ -27,7 +27,7 @@
 #endif
 
 static PSemaphore *h[NH];
-static int h_live[NH], h_name[NH], h_gen[NH], h_owner[NH];
+static int h_live[NH], h_name[NH], h_gen[NH], h_owner[NH], h_mode[NH], h_init[NH];
 static int r_exists[2], r_val[2], r_gen[2], gen_ctr;
 static int n_new, n_create_existing, n_ownerfree, n_acq, n_stale, n_nested, n_intr;
 
@@ -48,12 +48,40 @@ static void check_state(void) {
   }
 }
 
+/* reference effect of an open (shared by p_semaphore_new and, System V only, by the re-attach of a handle whose set was removed) */
+static void ref_open(int k, int n, int mode, int init) {
+  h_owner[k] = 0;
+  if (!r_exists[n]) { r_exists[n] = 1; r_val[n] = init; r_gen[n] = ++gen_ctr; h_owner[k] = 1; }
+  else if (mode == P_SEM_ACCESS_CREATE) {
+    r_val[n] = init; n_create_existing++;
+#ifndef SYSV
+    r_gen[n] = ++gen_ctr;          /* POSIX: unlink + a new object, older handles stay on the old one */
+#endif                             /* System V: SETVAL on the same set, every attached handle sees the new value */
+  }
+  h_gen[k] = r_gen[n];
+}
+
 static int is_current(int k) { int n = h_name[k]; return r_exists[n] && h_gen[k] == r_gen[n]; }
 
 /* acquire / release through handle k, executed by its process */
+#ifdef SYSV
+/* System V: a handle whose set was removed (IPC_RMID by an owner free) finds that out at its next acquire / release
+ * (EIDRM / EINVAL) and re-attaches by name with the mode and initial value it was opened with: for the reference this
+ * is one more open at that moment.  The interrupted release itself is not repeated by the library (returns TRUE). */
+static int reattach(int k) {
+  if (is_current(k)) return 0;
+  ref_open(k, h_name[k], h_mode[k], h_init[k]);
+  n_stale++;
+  return 1;
+}
+#endif
+
 static void op_acquire(int k) {
   int n = h_name[k];
   vk_cur = PROC_OF(k);
+#ifdef SYSV
+  reattach(k);
+#endif
   vk_expect_noblock = is_current(k) && r_val[n] > 0;
 #ifdef EINTR_MAX
   /* handled signals: sem_wait fails with EINTR at a symbolic subset (<= EINTR_MAX) of its invocations in this acquire;
@@ -78,10 +106,15 @@ static void op_acquire(int k) {
 static void op_release(int k) {
   int n = h_name[k];
   vk_cur = PROC_OF(k);
+#ifdef SYSV
+  int re = reattach(k);
+#else
+  int re = 0;
+#endif
   pboolean ok = p_semaphore_release(h[k], NULL);
   if (is_current(k)) {
     VASSERT(ok == TRUE, "release on a current handle returns TRUE");
-    r_val[n]++;
+    if (!re) r_val[n]++;
   } else n_stale++;
 }
 
@@ -106,10 +139,18 @@ void harness(void) {
   for (int i = 0; i < NOPS; i++) {
     int op = ND_RANGE(0, 4);
     int k = ND_RANGE(0, NH - 1);
+#ifdef PROLOGUE2
+    /* deeper histories at the same cost: the first two calls are opens of name a through handles 0 and 1 (modes and
+     * initial values stay symbolic), the remaining NOPS-2 calls are free */
+    if (i < 2) VASSUME(op == 0 && k == i);
+#endif
     vk_cur = PROC_OF(k);
     if (op == 0) {
       VASSUME(!h_live[k]);
       int n = ND_RANGE(0, 1);
+#if defined(PROLOGUE2) || defined(ONE_NAME)
+      VASSUME(n == 0);
+#endif
       int mode = ND_RANGE(0, 1);
       int init = ND_RANGE(0, VMAX);
 #ifdef KF_OPEN_C06_create_existing
@@ -124,10 +165,8 @@ void harness(void) {
 #endif
       VASSERT(s != NULL, "p_semaphore_new succeeds (OPEN and CREATE, name existing or not)");
       VASSUME(s != NULL);
-      h[k] = s; h_live[k] = 1; h_name[k] = n; h_owner[k] = 0;
-      if (!r_exists[n]) { r_exists[n] = 1; r_val[n] = init; r_gen[n] = ++gen_ctr; h_owner[k] = 1; }
-      else if (mode == P_SEM_ACCESS_CREATE) { r_val[n] = init; r_gen[n] = ++gen_ctr; n_create_existing++; }
-      h_gen[k] = r_gen[n];
+      h[k] = s; h_live[k] = 1; h_name[k] = n; h_mode[k] = mode; h_init[k] = init;
+      ref_open(k, n, mode, init);
       n_new++;
     } else if (op == 1) {
       VASSUME(h_live[k]);
@@ -152,7 +191,11 @@ void harness(void) {
       VASSUME(h_live[k]);
       p_semaphore_free(h[k]);
       h_live[k] = 0;
+#ifdef SYSV
+      if (h_owner[k] && is_current(k)) { r_exists[h_name[k]] = 0; n_ownerfree++; }   /* IPC_RMID acts on the handle's own set id */
+#else
       if (h_owner[k]) { r_exists[h_name[k]] = 0; n_ownerfree++; }
+#endif
     }
     check_state();
   }
